@@ -45,9 +45,24 @@ def _get_deps():
 _get_deps.__name__ = "get_deps"
 
 
+def _used_objects(kind):
+    """the names a USE statement brings into a scope are what references in that scope resolve against (renamed-away names are not among them)"""
+    def mk():
+        from bounded import c07
+        from contracts import useassoc
+        c = useassoc.used_objects(kind, PROP)
+        c.search_fn = c07.search
+        return c
+    mk.__name__ = f"used_objects[{kind}]"
+    return mk
+
+
 def build(tier, seed):
     set_tier(tier)
-    tasks = [a_task(PROP, _with_search(scoping.host_block)), a_task(PROP, _with_search(scoping.submodule_block)), a_task(PROP, _with_search(scoping.own_procs_hide)), a_task(PROP, _get_deps),
+    tasks = [Task(f"{PROP}.S.deplist", PROP, "Project.correlate deplist", lambda: __import__("contracts.deps", fromlist=["x"]).deplist_obligations(PROP, lambda: __import__("bounded.c07", fromlist=["x"]).search())),
+             a_task(PROP, _with_search(scoping.parent_submodule_block)),
+             *[a_task(PROP, _used_objects(k)) for k in ("pub_procs", "pub_absints", "pub_types", "pub_vars")],
+             a_task(PROP, _with_search(scoping.host_block)), a_task(PROP, _with_search(scoping.submodule_block)), a_task(PROP, _with_search(scoping.own_procs_hide)), a_task(PROP, _get_deps),
              Task(f"{PROP}.S.extension_order", PROP, "type extension order", lambda: scoping.extension_order(PROP)), bounded_task()]
     meta = {
         "trusted_base": TRUSTED_BASE,
